@@ -27,7 +27,7 @@ ModPool == IF Pools = "small"
              THEN { [bold |-> -1, ul |-> -1], [bold |-> 0, ul |-> 1] }
              ELSE { [bold |-> -1, ul |-> -1], [bold |-> 1, ul |-> -1], [bold |-> 0, ul |-> 1] }
 
-IdSeq   == << "G.A", "G.S.B", "G.S.C", "H" >>   \* nested 2 and 3 levels deep in the dict form
+IdSeq   == << "G.S.B", "S", "G.A", "H" >>   \* nested 3 and 2 levels deep in the dict form; "S" is one character that occurs in another id
 Ids     == { IdSeq[i] : i \in 1 .. NumIds }
 Builtin == "NAME"                    \* BUILT_IN_CONFIG: "NAME": "GREEN:bold"
 Unknown == "U"                       \* never registered
